@@ -193,7 +193,9 @@ def obligations(tier):
     # the built-in arithmetic of the VM itself: the same generated harnesses as C01/arith (they apply the expression text of
     # each `execute_` arm to all operands); under C06 what matters is that none of them can panic inside the interpreter
     import c01
-    arith = [dict(o, name=o["name"].replace("C01/arith/", "C06/vm_arith/"),
+    # only checks that are NOT the value oracle of the C01 harness (its `assert!(got == ..)` lines) count here: a wrong
+    # result is C01's business, a panic / trap / UB inside the arm is C06's
+    arith = [dict(o, name=o["name"].replace("C01/arith/", "C06/vm_arith/"), only_checks=r"^(?!assertion failed: got)",
                   clause="interpreter arm never panics on any operands (overflow and division by zero are error values): " + o["clause"])
              for o in c01.obligations(tier) if o["name"].startswith("C01/arith/")]
     return list(obs) + arith + STATIC
@@ -214,6 +216,8 @@ STATIC = [
          clause="std.array slice: the allocation is only reached with start <= end <= len, so `end - start` cannot underflow and the copied range lies inside the array"),
     dict(engine="verus", unit="array", function="ValueArray::get", name="C06/array/ValueArray_get", source="vm/src/value.rs::ValueArray::get",
          clause="the unchecked element read behind array.index / iteration is reached only with index < len (the precondition of unsafe_get is proved at its 8 call sites; the element TYPE parameter chosen per representation is dropped by the rewrite and not checked); any other index is None"),
+    dict(engine="verus", unit="array", function="array::append::repr", name="C06/array/append_repr", source="vm/src/primitives.rs::array::append (helper Append::repr)",
+         clause="whenever one operand of append is non-empty the result carries the element representation of a non-empty operand (an `[]` literal has no proper representation; a wrongly tagged array aborts the host in the next `&[T]` argument unpacking)"),
     dict(engine="verus", unit="apipush", function="AsyncPushable::async_status_push", name="C06/api/async_status_push", source="vm/src/api/mod.rs::AsyncPushable::async_status_push",
          clause="a failing primitive always ends as Status::Error with exactly its message pushed; producing the error value cannot itself fail (limit-ignoring allocation, no unwrap of a fallible push)"),
     dict(engine="verus", unit="apipush", function="AsyncPushable::async_push(sync)", name="C06/api/sync_async_push", source="vm/src/api/mod.rs::<T: Pushable as AsyncPushable>::async_push",
